@@ -221,6 +221,9 @@ NEAR = [("<link rel=x>\n", "<link:chapter-2> text\n"), ("<div>\nx\n</div>\n", "<
         ("# h\n", "#hashtag\n"), ("- x\n", "-x\n"), ("1. x\n", "1.x\n"), ("***\n", "***a\n"), ("```\nc\n```\n", "``` `x`\n"), ("[r]: /u\n", "[r]:x y z\n"),
         ("t\n===\n", "t\n=== x\n"), ("|a|b|\n|-|-|\n", "|a|b|\n|-|x|\n"), ("<!-- c -->\n", "<!- c ->\n"), ("<?php x ?>\n", "<? x\n"), ("<a@b.c>\n", "<a href=x>\n"),
         ("    code\n", "   text\n"), ("~~~\nf\n~~~\n", "~~ s ~~\n"), ("> q\n", ">q\n")]
+SETTERS += ["[r]: /u\n", "[Foo Bar]: /v 't'\n", "~~~\nt\n~~~\n", "````\nq\n````\n"]
+SENSITIVE += ["[r]: javascript:x\n", "[R]: data:text/html,y\n", "[foo  bar]: vbscript:z 't'\n", "[r]: <file:///e>\n", "> ```\n> c\n> ```\n> after\n", "> ~~~\n> t\n> ~~~\n> after\n",
+              "- > ```\n  > c\n  > ```\n  > z\n", "> - ```\n>   c\n>   ```\n>   z\n", "> ````\n> ```\n> ````\n> w\n"]
 SETTERS += [x for pair in NEAR for x in pair]
 SENSITIVE += [x for pair in NEAR for x in pair]
 BATTERY_CONFS = [{"preset": "commonmark", "enable": ["table", "strikethrough"]}, {"preset": "js-default"}, {"preset": "commonmark"}, {"preset": "gfm-like", "options": {"linkify": False}}]
